@@ -18,7 +18,17 @@ Two further dimensions:
   pairs that differ in the features switch only (on then off, off then on);
 * a configuration switch of the library, mouette.config.display_duplicate_attribute_warning = True (create_attribute then
   hands back an existing attribute of the same name): every history task is run a second time under it (dupflag_variant,
-  the runner sets and restores the switch), the clauses of the second field under the subchecks C18.history.dupflag.*.
+  the runner sets and restores the switch), the clauses of the second field under the subchecks C18.history.dupflag.*;
+* the unit of length: the same inputs with every coordinate multiplied by 2^-48 and by 2^48 (exact in binary floating point;
+  input class + ':unit=2^e'): every clause is dimensionless (moduli, angles, indices, cotangent ratios), so each one is
+  evaluated on the scaled input with the oracle recomputed from the scaled coordinates, and C18.unit.features / .constraints /
+  .field demand the feature edges, the constraints and the directions found at unit scale (an absolute epsilon on a length,
+  an area or an eigenvalue is invisible at unit scale);
+* the documented configuration switch mouette.config.sort_neighborhoods = False while the mesh is built and processed (vertex
+  rings unsorted; input class + ':sort=False'; set and restored around each execution): every clause, C18.sort.features /
+  .field (same feature edges, same directions against the mesh's own edges as with sorted rings) and, under that switch, every
+  rotation of the face list (each face in position 0 in turn) and every transposition (0 k) of the vertex labels (each vertex in
+  position 0 in turn): C18.sort.face_in_position_0 / C18.sort.vertex_in_position_0.
 """
 from __future__ import annotations
 import cmath, itertools, math, os
@@ -26,7 +36,7 @@ from mc.core import Report, call, exc_kind
 
 ID = "C18"
 TECHNIQUE = ("bounded-exhaustive sweep (all triangulations of small point sets and lattice polygons x all configurations within 2 "
-             "deviations x all relabelings x all length-2 field histories on one mesh object x the duplicate-attribute configuration switch) of the real frame-field solvers vs an "
+             "deviations x all relabelings x all length-2 field histories on one mesh object x the duplicate-attribute configuration switch x unit of length 2^-48 / 2^48 x unsorted vertex rings with every face / vertex in position 0) of the real frame-field solvers vs an "
              "independently assembled dense connection-Laplacian oracle")
 RULE = ("inputs: every triangulation TRI(P) of the listed planar point sets (paraboloid lift z=(x^2+y^2)/16, and unlifted with "
         "the library's flat connection), lifted 3x3 / 3x4 grids, tetrahedron, octahedron, icosahedron, 3x3 and 3x4 tori; every "
@@ -34,7 +44,7 @@ RULE = ("inputs: every triangulation TRI(P) of the listed planar point sets (par
         "configurations: order 1-6 x element x n_smooth {0,1,3} in full, the switches features/use_cotan/cad_correction/"
         "smooth_normals within the deviation bound of the tier; relabelings and face-listing deviations (start rotations, "
         "swaps of adjacent faces) as listed in the bounds; histories: ordered pairs (A, B) of configurations (element x order x "
-        "n_smooth {0,3}, A != B), A built/run/flagged then B built/run/flagged on the same mesh object, all clauses after each; on meshes where the features switch is not inert (an interior edge with normals' dot < 0.5) also the 48 pairs differing in features only; every history once more under config.display_duplicate_attribute_warning=True (clauses C18.history.dupflag.*); a case = one distinct (labelled and listed mesh, configuration) "
+        "n_smooth {0,3}, A != B), A built/run/flagged then B built/run/flagged on the same mesh object, all clauses after each; on meshes where the features switch is not inert (an interior edge with normals' dot < 0.5) also the 48 pairs differing in features only; every history once more under config.display_duplicate_attribute_warning=True (clauses C18.history.dupflag.*); deviation dimensions on the meshes listed in the bounds, configurations = order 1-6 x n_smooth {0,3} with the default switches and cad_correction off + every single-switch deviation for the orders 3, 4 + the flat connection on the planar version: each run at unit scale (reference), with all coordinates x 2^-48 and x 2^48 (class ':unit=2^e': all clauses + C18.unit.*: same features, constraints, directions as the reference) and with config.sort_neighborhoods=False (class ':sort=False': all clauses + C18.sort.*: same features and edge-relative directions as with sorted rings; smoothing off, orders 1 and 4: every rotation of the face list and every vertex transposition (0 k), clauses C18.sort.face_in_position_0 / vertex_in_position_0); a case = one distinct (labelled and listed mesh, configuration) "
         "execution of the real solver; non-trivial = the mesh has constrained elements or is closed (always true here)")
 ASSUMPTIONS = [
     "inputs are oriented manifold triangle complexes in general position (exact integer predicate), <= 12 vertices (icosahedron/torus) ",
@@ -45,11 +55,14 @@ ASSUMPTIONS = [
     "relabeling / face-start invariance is asserted with smoothing switched off and cad_correction off (OSQP's 1e-3 tolerance is not round-off)",
     "histories have length two, one fresh mesh object per pair; the first field is not used again after the second one was built (FeatureEdgeDetector results of successive fields share the mesh's 'corners'/'feature' attributes by design)",
     "the duplicate-attribute switch is set and restored by the runner around the whole task (mc/runner.py, dupflag variant); each such task verifies on a scratch container that a second create_attribute under one name returns the first attribute (and returns a new one in the regular tasks)",
+    "unit of length: multiplying every coordinate by 2^-48 or 2^48 is exact (asserted per input), every asserted quantity is dimensionless, so the expectations are those of unit scale with the same tolerances; the exact lattice predicates are evaluated on the coordinates divided by the factor again (exact); measured on the unchanged tree: all bordered inputs and all closed ones with n_smooth=0 on faces are right from 2^-60 to 2^60, the three scale-dependent defects found (attach weight of the smoothing steps on closed surfaces below ~2^-17 and above 2^24, eigen-solve of the closed vertex-based field above ~2^16) are reported, not excluded",
+    "config.sort_neighborhoods is a documented switch of mouette.config ('sort the corner connectivity arrays'): the statement holds for either value; it is set immediately before the mesh is built, left in place while the field is computed and flagged, and restored in a finally (each task verifies it at its end); C18.sort.* compare with the run under sorted rings through directions measured against the mesh's own edges only (the local bases may legitimately start from another ring edge)",
+    "the comparisons between listings under sort=False (face / vertex in position 0) are not asserted where the constraint itself depends on the listing: the two classes of the known findings (a face with two constrained edges; crease vertices with the geometric initialisation), border corners whose two edge contributions are exactly opposite (one of the two edges is kept: which one follows the edge numbering), and inputs without constrained element (eigenvector with a seeded random start); they are counted (dev_not_asserted:*), every per-execution clause still applies to them",
     "lattice polygons: integer coordinates, no three points collinear (exact), all triangulations by flips from an ear-clipping start; corner turning angles and the 'exactly opposite contributions' relation order*turning = 180 mod 360 are decided in integer arithmetic",
 ]
 BOUNDS = {
-    "quick": "TRI(P) for the 7 point sets with <=6 vertices (30 triangulations), lifted grids 3x3 and 3x4, 5 closed meshes; per mesh: order 1-6 x element x n_smooth {0,1,3} in full with the switches within <=1 deviation (144 configurations) + 24 flat-connection configurations on the planar version; relabelings (n_smooth=0, cad off): all n! for n<=4 (24 cfgs), all 5! on one pentagon triangulation and every transposition on the other 5-vertex meshes (12 cfgs); face-listing deviations <=2 on n<=4, <=1 on n=5 (24 cfgs); lattice polygons trap, trap+1, rect+1, rtri+1, para+1, ell (17 triangulations): the same sweep with the inert features switch left on (108 + 24 flat configurations); histories: 216 ordered pairs (same element: order or n_smooth differs; other element: all order pairs, n_smooth 0) on each of 14 meshes (TRI of the <=5-point sets with interior vertices, grid 3x3, tetrahedron, octahedron, torus 3x3, TRI(trap+1), TRI(rtri+1)) + the 48 features-only pairs (element x order x n_smooth {0,3}, on->off and off->on) on the 3 of them with sharp interior edges; all history tasks a second time with display_duplicate_attribute_warning=True",
-    "thorough": "TRI(P) for all 13 point sets up to 8 vertices (387 triangulations), grids, closed meshes; switches within <=2 deviations for n<=6, grids and closed meshes (270 + 48 flat configurations per mesh), <=1 for n=7 (144+24), order x element x n_smooth only for n=8 (36+24); relabelings: all n! for n<=5 (42 cfgs n<=4, 24 cfgs n=5), all 6! on one triangulation of each 6-point set (12 cfgs), every transposition on the other 6-vertex meshes (24 cfgs), on every 3rd 7-vertex and every 8th 8-vertex mesh (12 cfgs) and on the 3x3 grid (24 cfgs); face-listing deviations <=2 for n<=5, <=1 for n=6 and every 6th mesh with n>=7 (24 cfgs); lattice polygons: all 11 sets (91 triangulations), switches within <=2 deviations for n<=6, <=1 for n=7; histories: all 552 ordered pairs of element x order x n_smooth {0,3} on each of 94 meshes (TRI of the <=6-point sets with interior vertices, grid 3x3, 5 closed meshes, TRI of the 7 lattice sets with an interior point) + the 48 features-only pairs on those with sharp interior edges; all history tasks a second time with display_duplicate_attribute_warning=True",
+    "quick": "TRI(P) for the 7 point sets with <=6 vertices (30 triangulations), lifted grids 3x3 and 3x4, 5 closed meshes; per mesh: order 1-6 x element x n_smooth {0,1,3} in full with the switches within <=1 deviation (144 configurations) + 24 flat-connection configurations on the planar version; relabelings (n_smooth=0, cad off): all n! for n<=4 (24 cfgs), all 5! on one pentagon triangulation and every transposition on the other 5-vertex meshes (12 cfgs); face-listing deviations <=2 on n<=4, <=1 on n=5 (24 cfgs); lattice polygons trap, trap+1, rect+1, rtri+1, para+1, ell (17 triangulations): the same sweep with the inert features switch left on (108 + 24 flat configurations); histories: 216 ordered pairs (same element: order or n_smooth differs; other element: all order pairs, n_smooth 0) on each of 14 meshes (TRI of the <=5-point sets with interior vertices, grid 3x3, tetrahedron, octahedron, torus 3x3, TRI(trap+1), TRI(rtri+1)) + the 48 features-only pairs (element x order x n_smooth {0,3}, on->off and off->on) on the 3 of them with sharp interior edges; all history tasks a second time with display_duplicate_attribute_warning=True; deviation dimensions (unit 2^-48, unit 2^48, sort_neighborhoods=False): 31 meshes (first and last triangulation of each of the 7 point sets and 6 lattice polygons, both grids, the 5 closed meshes) x element; per mesh 28 vertex / 20 face configurations (24 / 16 on lattice polygons) + 4 flat-connection ones per element, each run 4 times (reference, 2 units, unsorted rings); every face in position 0 and every vertex in position 0 under unsorted rings for the orders 1 and 4, smoothing off",
+    "thorough": "TRI(P) for all 13 point sets up to 8 vertices (387 triangulations), grids, closed meshes; switches within <=2 deviations for n<=6, grids and closed meshes (270 + 48 flat configurations per mesh), <=1 for n=7 (144+24), order x element x n_smooth only for n=8 (36+24); relabelings: all n! for n<=5 (42 cfgs n<=4, 24 cfgs n=5), all 6! on one triangulation of each 6-point set (12 cfgs), every transposition on the other 6-vertex meshes (24 cfgs), on every 3rd 7-vertex and every 8th 8-vertex mesh (12 cfgs) and on the 3x3 grid (24 cfgs); face-listing deviations <=2 for n<=5, <=1 for n=6 and every 6th mesh with n>=7 (24 cfgs); lattice polygons: all 11 sets (91 triangulations), switches within <=2 deviations for n<=6, <=1 for n=7; histories: all 552 ordered pairs of element x order x n_smooth {0,3} on each of 94 meshes (TRI of the <=6-point sets with interior vertices, grid 3x3, 5 closed meshes, TRI of the 7 lattice sets with an interior point) + the 48 features-only pairs on those with sharp interior edges; all history tasks a second time with display_duplicate_attribute_warning=True; deviation dimensions: every triangulation of the point sets with <= 6 points and every 4th of the larger ones, all triangulations of the 11 lattice polygons, grids, closed meshes; single-switch deviations and the flat connection for all orders 1-6; same units (2^-48, 2^48) and position-0 listings as quick",
 }
 
 SEED = int(os.environ.get("VERIF_SEED", "0") or 0)
@@ -155,6 +168,30 @@ def _hist_configs():
 
 
 NHIST = 24
+UNIT_EXPS = [-48, 48]        # unit-of-length deviation: every coordinate times 2^-48 / 2^48 (exact in binary floating point)
+
+
+def _dev_configs(el, flat=False, inert=(), full=False):
+    """configurations run under the deviation dimensions (unit of length, unsorted vertex rings).  Reference switches = the
+    defaults with cad_correction off (OSQP's 1e-3 tolerance is not round-off): order 1-6 x n_smooth {0,3}; every single-switch
+    deviation from them (features off, uniform weights; vertices: smooth_normals off, cad_correction on) x n_smooth {0,3} for
+    the orders 3 and 4 (all orders when `full`).  flat: the library's flat connection (on the planar version of the input),
+    orders 1 and 4 (all when `full`) x n_smooth {0,3}."""
+    ref = {"el": el, "order": 4, "ns": 0, "feat": True, "cot": True, "cad": False, "sn": True, "flat": bool(flat)}
+    some = list(range(1, 7)) if full else [3, 4]
+    if flat:
+        return [dict(ref, order=order, ns=ns) for order in (some if full else [1, 4]) for ns in (0, 3)]
+    out = [dict(ref, order=order, ns=ns) for order in range(1, 7) for ns in (0, 3)]
+    devs = [("feat", False), ("cot", False)] + ([("sn", False), ("cad", True)] if el == "vertices" else [])
+    for order in some:
+        for ns in (0, 3):
+            out += [dict(ref, order=order, ns=ns, **{k: v}) for k, v in devs if k not in inert]
+    return out
+
+
+def _zero_configs(el):
+    """configurations of the 'every face / every vertex in position 0' listings: smoothing off, reference switches"""
+    return [c for c in _dev_configs(el) if c["ns"] == 0 and c["order"] in (1, 4) and c["feat"] and c["cot"] and c["sn"] and not c["cad"]]
 
 
 def _hist_feature_pairs():
@@ -250,6 +287,26 @@ def tasks(tier):
         if _features_not_inert(p, f):
             # the features switch in the history: only where it changes the set of constrained elements
             out.append({"kind": "history", "mesh": name, "pts": p, "faces": f, "pairs": _hist_feature_pairs(), "features_pairs": True})
+    # ---- deviation dimensions: unit of length (coordinates x 2^e) and config.sort_neighborhoods = False, one task per
+    # (mesh, element): quick = first and last triangulation of every point set / lattice polygon, grids, closed meshes
+    def ends(lst):
+        return lst if not quick else ([lst[0], lst[-1]] if len(lst) > 1 else lst[:1])
+    devm = []
+    for s in sets:
+        if quick or len(fam[s][0][2]) <= 6:
+            devm += [(name, L.lift(P), tri, [list(p) for p in P], []) for name, n, P, tri in ends(fam[s])]
+        else:
+            devm += [(name, L.lift(P), tri, [list(p) for p in P], []) for name, n, P, tri in fam[s][::4]]
+    for k, l in ((3, 3), (3, 4)):
+        p, f = _grid(k, l)
+        devm.append((f"grid{k}x{l}", p, f, [[q[0], q[1]] for q in p], []))
+    devm += [(name, p, f, None, []) for name, p, f in _closed()]
+    for s in lat:
+        devm += [(name, L.flat(P), tri, [list(p) for p in P], ["feat"]) for name, n, P, tri in ends(lat[s])]
+    for name, p, f, planar, inert in devm:
+        for el in ("vertices", "faces"):
+            out.append({"kind": "deviation", "mesh": name, "pts": p, "faces": f, "el": el, "planar": planar, "inert": inert,
+                        "exps": UNIT_EXPS, "full": not quick})
     # ---- relabelings: (perms, level of the configuration set)
     CH = 40
     for s in sets:
@@ -296,6 +353,12 @@ def tasks(tier):
 
 
 # ------------------------------------------------------------------------------------------ running the library
+# deviation under which the current execution is made (set by _deviation only, always reset in a finally):
+# 'cls' = suffix of the input class (':unit=2^-48', ':sort=False', ...), 'scale' = the exact power of two every coordinate
+# was multiplied by (the exact lattice predicates are evaluated on the coordinates divided by it again)
+DEV = {"cls": "", "scale": 1.0}
+
+
 def _icls(geo, cfg):
     return "%s:%s:%s:%s:%s%s" % ("order4" if cfg["order"] == 4 else "order!=4", cfg["el"],
                                  "closed" if geo.closed else "bordered", "ns0" if cfg["ns"] == 0 else "ns>0",
@@ -363,21 +426,45 @@ def _branch_parallel_err(z, order, theta):
     return best
 
 
-def _check(rep: Report, M, name, pts, faces, cfg, want_sing=True, relabel_tag=None, mesh=None, hist=None):
+def _chart_invariants(geo, transport, order, back):
+    """gauge-free content of the vertex connection's charts: for every vertex u and every neighbour v,
+    exp(i*order*(chart angle of u->v - chart angle of u->w0)), w0 = the neighbour of u with the smallest label; keys and the
+    choice of w0 in the labels given by `back` (new label -> reference label)"""
+    nb = {}
+    for (u, v) in geo.he:
+        nb.setdefault(u, set()).add(v); nb.setdefault(v, set()).add(u)
+    out = {}
+    for u, ring in nb.items():
+        w0 = min(ring, key=lambda v: back[v])
+        for v in ring:
+            out[(back[u], back[v])] = cmath.exp(1j * order * (transport(u, v) - transport(u, w0)))
+    return out
+
+
+def _check(rep: Report, M, name, pts, faces, cfg, want_sing=True, relabel_tag=None, mesh=None, hist=None, ref=None, ref_back=None, want_chart=False):
     """One execution of the real code + every clause of the statement that applies. Returns a dict used by the
     invariance clauses (None if the run failed): {'inv': key->complex, 'skip': reason or None}.
     `mesh`: run on this mesh object instead of a fresh one; `hist` = {'before': [configurations already run and flagged
     on that mesh object], 'cls': suffix of the input class, 'sub': subcheck prefix}: the clauses are then reported as
-    C18.history.* (C18.history.dupflag.* when the run is made under config.display_duplicate_attribute_warning = True)"""
+    C18.history.* (C18.history.dupflag.* when the run is made under config.display_duplicate_attribute_warning = True).
+    `ref` (executions under config.sort_neighborhoods = False only): the result of the same input and configuration under sorted
+    rings, `ref_back`: new label -> label in `ref`.  Root-cause gate of the vertex-based field: if the charts of the library's
+    vertex connection (gauge-free: _chart_invariants) are not those found under sorted rings, exactly that is reported
+    (C18.sort.vertex_connection) and the other clauses, whose expectations are all phrased relative to those charts, are not
+    evaluated on this execution (result {'gated': True})."""
     import numpy as np
     from mc import c18_lib as L
     r = _execute(M, pts, faces, cfg, want_sing, mesh)
     rep.traces += 1
     rep.transitions += 3
     geo = L.Geo(pts, r.faces)
-    icls = _icls(geo, cfg) + (hist["cls"] if hist else "")
+    icls = _icls(geo, cfg) + (hist["cls"] if hist else "") + DEV["cls"]
     callee = _callee(cfg)
     ctx = {"mesh": name, "pts": pts, "faces": [list(f) for f in r.faces], "cfg": cfg}
+    if DEV["cls"]:
+        ctx["deviation"] = DEV["cls"] + (" (every coordinate times %r)" % DEV["scale"] if DEV["scale"] != 1.0 else "") + (
+            " (mouette.config.sort_neighborhoods = False while the mesh is built and processed)" if not M.config.sort_neighborhoods else "")
+        rep.flag("dev%s:%s:%s" % (DEV["cls"], cfg["el"], "closed" if geo.closed else "bordered"))
     if relabel_tag is not None:
         ctx["relabel"] = relabel_tag
     if hist:
@@ -385,7 +472,7 @@ def _check(rep: Report, M, name, pts, faces, cfg, want_sing=True, relabel_tag=No
 
     def viol(sub, callee_, kind, icls_, detail):
         rep.violation((hist.get("sub", "C18.history.") + sub[len("C18."):]) if hist else sub, callee_, kind, icls_, detail)
-    rep.case((name, relabel_tag, sorted(cfg.items()), [sorted(c.items()) for c in hist["before"]] if hist else None))
+    rep.case((name, relabel_tag, sorted(cfg.items()), [sorted(c.items()) for c in hist["before"]] if hist else None) + ((DEV["cls"],) if DEV["cls"] else ()))
     rep.states += 1
     rep.flag("closed" if geo.closed else "bordered")
     rep.flag("el:" + cfg["el"])
@@ -403,6 +490,25 @@ def _check(rep: Report, M, name, pts, faces, cfg, want_sing=True, relabel_tag=No
     if nel != (geo.n if el == "vertices" else len(geo.F)):
         viol("C18.unit_modulus", callee + ".var", "mismatch:size", icls, dict(ctx, got=nel))
         return None
+    chart = None
+    if el == "vertices" and not cfg["flat"] and (ref is not None or want_chart):
+        chart = _chart_invariants(geo, f.conn.transport, order, ref_back if ref_back is not None else list(range(geo.n)))
+        if ref is not None and ref.get("chart") is not None and DEV["cls"] == ":sort=False":
+            rep.evaluations += 1
+            bad = [k for k in sorted(chart) if k not in ref["chart"] or not abs(chart[k] - ref["chart"][k]) < TOL]
+            rep.outcome("vertex_connection_under_unsorted_rings", "same_charts" if not bad else "other_charts")
+            if bad:
+                u, v = bad[0]
+                rep.violation("C18.sort.vertex_connection", "SurfaceConnectionVertices.transport", "mismatch:chart_angles",
+                              "vertices:sort=False",
+                              dict(ctx, vertex=u, neighbour=v, labels="those of the reference listing" if relabel_tag else "as listed",
+                                   chart_angle_relative_to_the_edge_to_the_smallest_neighbour_times_order_as_unit_complex={
+                                       "sorted_rings": complex(ref["chart"].get((u, v), 0)), "unsorted_rings": complex(chart[(u, v)])},
+                                   ring_of_the_vertex_as_listed_by_the_library=[int(w) for w in r.mesh.connectivity.vertex_to_vertices(
+                                       u if ref_back is None else ref_back.index(u))],
+                                   edges_with_other_charts=len(bad)))
+                rep.count("dev_not_asserted:vertex_connection_gated")
+                return {"gated": True}
 
     # ---- constrained edges: border (mine) + the library's feature edges
     S = set(geo.border_edges)
@@ -481,6 +587,7 @@ def _check(rep: Report, M, name, pts, faces, cfg, want_sing=True, relabel_tag=No
     # lattice inputs). "unguarded" (odd order or smooth_normals off): plain sum of exp(i*order*chart angle of the edge):
     # it legitimately vanishes when those angles are opposite (excluded, decided exactly / from the connection's angles).
     cancelled = set()
+    ambiguous = False     # some constraint is 'one of two exactly opposite contributions': which one depends on the edge numbering
     corner = {}           # border vertex with exactly its two border edges constrained -> (previous, next) border vertex
     if el == "vertices":
         guarded = bool(cfg["sn"]) and order % 2 == 0
@@ -489,7 +596,9 @@ def _check(rep: Report, M, name, pts, faces, cfg, want_sing=True, relabel_tag=No
             nbrs.setdefault(a, []).append(b); nbrs.setdefault(b, []).append(a)
         nxt = {a: b for (a, b) in geo.he if (b, a) not in geo.he}      # border traversed with the surface on its left
         prv = {b: a for a, b in nxt.items()}
-        ipts = L.integer_planar(pts)
+        ipts = L.integer_planar([[c / DEV["scale"] for c in p] for p in pts] if DEV["scale"] != 1.0 else pts)
+        if ipts is not None and DEV["scale"] != 1.0:
+            rep.flag("dev:unit:exact_lattice_predicates_on_unscaled_coordinates")
         for v in fixed:
             opp = None
             if deg[v] == 2 and v in nxt and v in prv and sorted(nbrs[v]) == sorted((nxt[v], prv[v])):
@@ -499,6 +608,8 @@ def _check(rep: Report, M, name, pts, faces, cfg, want_sing=True, relabel_tag=No
                                   (ipts[nxt[v]][0] - ipts[v][0], ipts[nxt[v]][1] - ipts[v][1]))
                     opp = L.opposed(z[0], z[1], order)
                     rep.flag("lattice_corner_turning:" + L.turning_class(*z))
+                    if opp and guarded:
+                        ambiguous = True
                     if opp and guarded and not cfg["flat"]:
                         rep.flag("opposed_corner:guarded:order%d" % order)
                         rep.count("corners_with_exactly_opposite_contributions:guarded")
@@ -583,6 +694,7 @@ def _check(rep: Report, M, name, pts, faces, cfg, want_sing=True, relabel_tag=No
                 if abs(s) < 1e-6:
                     # exactly opposite contributions: the mean is undefined (the unit-constraint clause above still applies)
                     rep.count("mean_clause_not_applicable:opposite_contributions")
+                    ambiguous = True
                     rep.outcome("opposed_corner_constraint", "one_of_the_two_edges" if min(abs(var0[v] - c) for c in contrib) < TOL else "other")
                     continue
                 want = s / abs(s)
@@ -633,6 +745,8 @@ def _check(rep: Report, M, name, pts, faces, cfg, want_sing=True, relabel_tag=No
             rep.flag("harmonic:lattice_polygon:" + el + (":flatconn" if cfg["flat"] else ""))
         if hist:
             rep.flag("harmonic:2nd_field_on_mesh:" + el)
+        if DEV["cls"]:
+            rep.flag("dev%s:harmonic:%s" % (DEV["cls"], el))
         worst_i, worst_e = None, 0.0
         for k, i in enumerate(free):
             if i in zero_free:
@@ -685,7 +799,9 @@ def _check(rep: Report, M, name, pts, faces, cfg, want_sing=True, relabel_tag=No
         tag = ":interior_feature_vertices:geometric_init"
     if not tag:
         rep.flag("invariance_unambiguous:" + el)
-    return {"inv": inv, "skip": skip_inv, "icls": icls + tag, "singuls": r.singuls}
+    return {"inv": inv, "skip": skip_inv, "icls": icls + tag, "singuls": r.singuls, "tag": tag, "nfixed": len(fixed), "ambiguous": ambiguous,
+            "chart": chart, "gated": False,
+            "feat": sorted(lib_feat), "var0": var0, "mesh": r.mesh}
 
 
 def _lap_name(cfg):
@@ -773,9 +889,12 @@ def _operator_identities(task, rep, M, flat_pts, faces, el):
                               dict(ctx, planar_pts=flat_pts, max_difference=float(abs(C1 - C2).max()) if C1.shape == C2.shape else "shape"))
 
 
-def _compare(rep, base, other, cfg, sub, ctx):
+def _compare(rep, base, other, cfg, sub, ctx, icls=None):
+    """`icls`: input class to report under (default: the class of the base run)"""
     if base is None or other is None:
         return
+    if icls is not None:
+        base = dict(base, icls=icls)
     if base["skip"] or other["skip"]:
         rep.count("invariance_skipped:" + str(base["skip"] or other["skip"]))
         return
@@ -889,6 +1008,167 @@ def _history(task, rep, M):
                     "display_duplicate_attribute_warning": dup})
 
 
+class _dev:
+    """context of one execution under a deviation: input-class suffix, scale, and (sort=False) the configuration switch
+    mouette.config.sort_neighborhoods, which is set before the mesh is built and restored whatever happens"""
+
+    def __init__(self, M, cls, scale=1.0, sort=True):
+        self.M, self.cls, self.scale, self.sort = M, cls, scale, sort
+
+    def __enter__(self):
+        self.old = self.M.config.sort_neighborhoods
+        DEV["cls"], DEV["scale"] = self.cls, self.scale
+        self.M.config.sort_neighborhoods = self.sort
+        return self
+
+    def __exit__(self, *a):
+        self.M.config.sort_neighborhoods = self.old
+        DEV["cls"], DEV["scale"] = "", 1.0
+        return False
+
+
+def _same(rep, base, got, cfg, sub, ctx, cls, same_bases):
+    """Clauses of a deviation that must not change the result: `got` (run under the deviation `cls`) against `base` (same
+    input and configuration, unit scale, sorted rings).  sub.features: the same feature edges (combinatorial result);
+    sub.constraints (same_bases: a change of unit leaves the local bases alone): the same constraint on every constrained
+    element; sub.field (smoothing off, cad_correction off, some element constrained = linear solve): the same directions
+    measured against the mesh's own edges."""
+    if base is None or got is None or got["gated"]:
+        return          # the failure itself is reported by C18.run / C18.sort.vertex_connection
+    icls, callee, el = got["icls"], _callee(cfg), cfg["el"]
+    ctx = dict(ctx, cfg=cfg, deviation=cls)
+    if base["skip"] == "feature-threshold" or got["skip"] == "feature-threshold":
+        rep.count("dev_not_asserted:feature_threshold")
+        return
+    rep.evaluations += 1
+    if base["feat"] != got["feat"]:
+        rep.violation(sub + ".features", "FeatureEdgeDetector.feature_edges", "mismatch:feature_edges", icls,
+                      dict(ctx, reference=base["feat"], under_deviation=got["feat"]))
+        return
+    rep.flag("dev%s:features_compared:%s" % (cls, el))
+    if same_bases:
+        a, b = base["var0"], got["var0"]
+        for i in range(len(a)):
+            rep.evaluations += 1
+            da, db = abs(a[i]) > 0.5, abs(b[i]) > 0.5
+            if da != db or (da and not abs(a[i] - b[i]) < TOL):
+                rep.violation(sub + ".constraints", callee + ".initialize", "mismatch:constraint_value", icls,
+                              dict(ctx, element=i, reference=complex(a[i]), under_deviation=complex(b[i])))
+                return
+        rep.flag("dev%s:constraints_compared:%s" % (cls, el))
+    if cfg["ns"] == 0 and not cfg["cad"] and base["nfixed"] > 0:
+        if not same_bases and (base["tag"] or got["tag"]):
+            # the listing-dependent constraints of the known findings (corner faces, crease vertices): reported by the
+            # listing tasks, not asserted again here
+            rep.count("dev_not_asserted:listing_dependent_constraint_class")
+            return
+        _compare(rep, base, got, cfg, sub + ".field", ctx, icls=icls)
+        if not (base["skip"] or got["skip"]):
+            rep.flag("dev%s:field_compared:%s" % (cls, el))
+
+
+def _relabelled(pts, faces, perm):
+    """perm[old] = new -> (points, faces, back) in the new labels"""
+    n = len(pts)
+    back = [0] * n
+    for old, new in enumerate(perm):
+        back[new] = old
+    return [pts[back[new]] for new in range(n)], [tuple(perm[v] for v in f) for f in faces], back
+
+
+def _in_base_labels(got, back, el):
+    if got is None:
+        return None
+    inv = {}
+    for k, val in got["inv"].items():
+        if el == "faces":
+            inv[(tuple(sorted(back[v] for v in k[0])), back[k[1]], back[k[2]])] = val
+        else:
+            inv[(back[k[0]], back[k[1]])] = val
+    return dict(got, inv=inv)
+
+
+def _deviation(task, rep, M):
+    """The deviation dimensions.  For every configuration of _dev_configs the input is run (a) as it is (reference), (b) with
+    every coordinate multiplied by 2^e, e in task['exps'] (input class + ':unit=2^e'): every clause of the statement is
+    evaluated on the scaled input with the oracle recomputed from the scaled coordinates (the clauses are dimensionless:
+    moduli, angles, indices, cotangent ratios), plus C18.unit.*: same feature edges, same constraints, same directions as
+    at unit scale; (c) with mouette.config.sort_neighborhoods = False while the mesh is built and processed (input class +
+    ':sort=False'): every clause, plus C18.sort.*: same feature edges and same directions against the mesh's own edges as
+    with sorted rings; under that switch also every face listing that puts another face in position 0 (rotations of the face
+    list) and every transposition (0 k) of the vertex labels (every vertex in position 0), smoothing off:
+    C18.sort.face_in_position_0 / C18.sort.vertex_in_position_0."""
+    from mc import c18_lib as L
+    el, name = task["el"], task["mesh"]
+    pts, faces = [list(map(float, p)) for p in task["pts"]], [tuple(f) for f in task["faces"]]
+    if M.config.sort_neighborhoods is not True:
+        rep.flag("dev:sort_switch_found_off")
+    inputs = [(name, pts, _dev_configs(el, inert=task.get("inert", ()), full=task["full"]))]
+    if task["planar"] is not None:
+        inputs.append((name + ":planar", [list(p) for p in L.flat(task["planar"])], _dev_configs(el, flat=True, full=task["full"])))
+    runs = {}
+    for nm, P, cfgs in inputs:
+        ctx = {"mesh": nm, "pts": P, "faces": task["faces"]}
+        for cfg in cfgs:
+            base = _check(rep, M, nm, P, faces, cfg, want_chart=True)
+            # ---- (b) unit of length
+            for e in task["exps"]:
+                s = 2.0 ** e
+                SP = [[c * s for c in p] for p in P]
+                rep.flag("dev:unit:scaling_exact" if all((c * s) / s == c for p in P for c in p) else "dev:unit:scaling_inexact")
+                cls = ":unit=2^%d" % e
+                with _dev(M, cls, scale=s):
+                    got = _check(rep, M, nm, SP, faces, cfg)
+                _same(rep, base, got, cfg, "C18.unit", ctx, cls, True)
+            # ---- (c) unsorted vertex rings
+            with _dev(M, ":sort=False", sort=False):
+                got = _check(rep, M, nm, P, faces, cfg, ref=base)
+            if base is not None and got is not None and not got["gated"]:
+                ra, rb = ([list(r["mesh"].connectivity.vertex_to_vertices(v)) for v in range(len(P))] for r in (base, got))
+                if [sorted(x) for x in ra] == [sorted(x) for x in rb] and ra != rb:
+                    rep.flag("dev:sort=False:some_ring_listed_in_another_order")
+            _same(rep, base, got, cfg, "C18.sort", ctx, ":sort=False", False)
+            runs[(nm, tuple(sorted(cfg.items())))] = (base, got)
+    # ---- every face / every vertex in position 0 in turn (unsorted rings, smoothing off)
+    # (vertices: also with the flat connection on the planar version, whose charts do not involve the rings)
+    n, nf = len(pts), len(faces)
+    zero = [(name, pts, cfg) for cfg in _zero_configs(el)]
+    if el == "vertices" and len(inputs) > 1:
+        zero += [(inputs[1][0], inputs[1][1], dict(cfg, flat=True)) for cfg in _zero_configs(el)]
+    for nm, P, cfg in zero:
+        sorted_ref, base = runs.get((nm, tuple(sorted(cfg.items()))), (None, None))
+        for what, k in [("face", k) for k in range(1, nf)] + [("vertex", k) for k in range(1, n)]:
+            if what == "face":
+                p2, f2, back = P, faces[k:] + faces[:k], list(range(n))
+            else:
+                perm = list(range(n)); perm[0], perm[k] = k, 0
+                p2, f2, back = _relabelled(P, faces, perm)
+            with _dev(M, ":sort=False", sort=False):
+                got = _check(rep, M, nm, p2, f2, cfg, relabel_tag=[what + "_to_position_0", k], ref=sorted_ref, ref_back=back)
+            rep.count("dev:sort=False:%s_in_position_0:%s%s" % (what, el, ":flatconn" if cfg["flat"] else ""))
+            if base is None or got is None or base["gated"] or got["gated"]:
+                continue
+            if base["nfixed"] == 0:
+                rep.count("dev_not_asserted:no_constrained_element(eigenvector)")
+                continue
+            if base["tag"] or got["tag"]:
+                rep.count("dev_not_asserted:listing_dependent_constraint_class")
+                continue
+            if base["ambiguous"] or got["ambiguous"]:
+                # a border corner whose two edge contributions are exactly opposite keeps one of the two edges: which one is
+                # a matter of the edge numbering, i.e. of the listing
+                rep.count("dev_not_asserted:exactly_opposite_corner_contributions")
+                continue
+            _compare(rep, base, _in_base_labels(got, back, el), cfg, "C18.sort.%s_in_position_0" % what,
+                     {"mesh": nm, "pts": P, "faces": task["faces"], "cfg": cfg, "deviation": ":sort=False",
+                      ("face_moved_to_position_0" if what == "face" else "vertex_exchanged_with_vertex_0"): k}, icls=got["icls"])
+            rep.flag("dev:sort=False:%s_in_position_0:compared:%s" % (what, el))
+    rep.count("dev:tasks")
+    rep.count("dev:faces_in_position_0_wanted:" + el, nf - 1)
+    if len(rep.samples) < 1:
+        rep.sample({"mesh": name, "faces": task["faces"], "element": el, "deviations": [":unit=2^%d" % e for e in task["exps"]] + [":sort=False"]})
+
+
 def _feat_cls(A, B):
     if A["feat"] == B["feat"]:
         return ""
@@ -907,10 +1187,17 @@ def run_task(task, rep: Report):
             _relabel(task, rep, M)
         elif task["kind"] == "history":
             _history(task, rep, M)
+        elif task["kind"] == "deviation":
+            _deviation(task, rep, M)
         else:
             _listing(task, rep, M)
     finally:
         np.random.set_state(state)
+        if DEV["cls"] or DEV["scale"] != 1.0 or M.config.sort_neighborhoods is not True:
+            # cannot happen (_dev restores in __exit__); guarded by finish()
+            rep.flag("dev:context_or_switch_left_set")
+            DEV["cls"], DEV["scale"] = "", 1.0
+            M.config.sort_neighborhoods = True
 
 
 def finish(tier, rep: Report):
@@ -957,6 +1244,30 @@ def finish(tier, rep: Report):
         fails.append("history: the duplicate-attribute switch did not have its documented meaning in some task (or was left switched by one)")
     if not rep.counters.get("duplicate_attribute_flag:tasks"):
         fails.append("no history task was run under config.display_duplicate_attribute_warning = True")
+    # ---- deviation dimensions (unit of length, unsorted vertex rings)
+    dev_need = ["dev:unit:scaling_exact", "dev:unit:exact_lattice_predicates_on_unscaled_coordinates",
+                "dev:sort=False:some_ring_listed_in_another_order"]
+    for cls in [":unit=2^%d" % e for e in UNIT_EXPS] + [":sort=False"]:
+        for el in ("vertices", "faces"):
+            dev_need += ["dev%s:%s:bordered" % (cls, el), "dev%s:%s:closed" % (cls, el), "dev%s:harmonic:%s" % (cls, el),
+                         "dev%s:features_compared:%s" % (cls, el), "dev%s:field_compared:%s" % (cls, el)]
+            if cls != ":sort=False":
+                dev_need.append("dev%s:constraints_compared:%s" % (cls, el))
+            else:
+                dev_need += ["dev:sort=False:face_in_position_0:compared:" + el, "dev:sort=False:vertex_in_position_0:compared:" + el]
+    for f in dev_need:
+        if f not in rep.flags:
+            fails.append("coverage flag missing: " + f)
+    for f in ("dev:unit:scaling_inexact", "dev:context_or_switch_left_set", "dev:sort_switch_found_off"):
+        if f in rep.flags:
+            fails.append("deviation dimension: " + f)
+    if not rep.counters.get("dev:tasks"):
+        fails.append("no deviation task was run")
+    for el in ("vertices", "faces"):
+        # every face of every deviation mesh was moved to position 0 once per configuration of _zero_configs
+        want = rep.counters.get("dev:faces_in_position_0_wanted:" + el, 0) * len(_zero_configs(el))
+        if not want or rep.counters.get("dev:sort=False:face_in_position_0:" + el, 0) != want:
+            fails.append("deviation dimension: not every face was listed in position 0 (%s)" % el)
     return fails
 
 
